@@ -193,9 +193,15 @@ def _e15(inc, ex, neg, limit, root):
     return list(WP.Path(root).rglob(inc, flags=FL_G | neg, **_kw(limit, ex)))
 
 
-def wcmatch_call(pattern, limit, root):
+WC_HOWS = ['file_pattern', 'file_pattern+FILEPATHNAME', 'exclude_pattern', 'exclude_pattern+DIRPATHNAME']
+
+
+def wcmatch_call(pattern, limit, root, how='file_pattern'):
     kw = {} if limit == DEFAULT else {'limit': limit}
-    return WM.WcMatch(root, pattern, flags=WM.BRACE, **kw).match()
+    fl = WM.BRACE | (WM.FILEPATHNAME if 'FILEPATHNAME' in how else 0) | (WM.DIRPATHNAME if 'DIRPATHNAME' in how else 0)
+    if how.startswith('exclude'):
+        return WM.WcMatch(root, '*', pattern, flags=fl | WM.RECURSIVE, **kw).match()
+    return WM.WcMatch(root, pattern, flags=fl, **kw).match()
 
 
 def evaluate(res, ename, inc, exs, how, limit, root):
@@ -319,21 +325,22 @@ def run_limit(res, limit, enames, root, max_inc, max_exc):
 def run_wcmatch(res, limit, root):
     L = 1000 if limit == DEFAULT else limit
     for text, T, U in catalogue(L if L else 5) + ([(HUGE, 10 ** 8, 10 ** 8)] if L else []):
-        inp = {'entry': 'WcMatch', 'inclusions': [text], 'exclusions': [], 'how': 'file_pattern', 'limit': limit}
-        res.n['evaluations'] += 1
-        with Monitor((L if L else 2000) + 5000, L) as mon:
-            try:
-                wcmatch_call(text, limit, root)
-                outcome = 'ok'
-            except PLE:
-                outcome = 'raised'
-            except BudgetViolation:
-                outcome = 'budget'
-            except PullHorizon:
-                outcome = 'horizon'
-            except Exception as e:  # noqa: BLE001
-                outcome = 'exc:' + type(e).__name__
-        judge(res, inp, outcome, mon, L, T, U, 1)
+        for how in WC_HOWS:
+            inp = {'entry': 'WcMatch', 'inclusions': [text], 'exclusions': [], 'how': how, 'limit': limit}
+            res.n['evaluations'] += 1
+            with Monitor((L if L else 2000) + 5000, L) as mon:
+                try:
+                    wcmatch_call(text, limit, root, how)
+                    outcome = 'ok'
+                except PLE:
+                    outcome = 'raised'
+                except BudgetViolation:
+                    outcome = 'budget'
+                except PullHorizon:
+                    outcome = 'horizon'
+                except Exception as e:  # noqa: BLE001
+                    outcome = 'exc:' + type(e).__name__
+            judge(res, inp, outcome, mon, L, T, U, 1)
 
 
 def plan(tier, seed):
@@ -398,7 +405,7 @@ def replay(v):
             T, U = ent(t)[1:]
             with Monitor((L if L else 2000) + 5000, L) as mon:
                 try:
-                    wcmatch_call(t, limit, root)
+                    wcmatch_call(t, limit, root, inp['how'])
                     outcome = 'ok'
                 except PLE:
                     outcome = 'raised'
